@@ -462,6 +462,25 @@ func (w *World) reachableAvoidingBlocks(fn *ssa.Function, target *ssa.BasicBlock
 
 // ---- C10-X / H / U ---------------------------------------------------------------------------
 
+// phiTrueFrom: the branch tests a value phi that sits in block `at` (the block the hard-line-break edge leads to) and
+// receives the constant true along some edge — the short-circuit form of `hard || (soft && flag)` computed as a value.
+func phiTrueFrom(ins ssa.Instruction, at *ssa.BasicBlock) bool {
+	iff, ok := ins.(*ssa.If)
+	if !ok {
+		return false
+	}
+	ph, ok := iff.Cond.(*ssa.Phi)
+	if !ok || ph.Block() != at || iff.Block() != at {
+		return false
+	}
+	for _, e := range ph.Edges {
+		if b, isC := constBool(e); isC && b {
+			return true
+		}
+	}
+	return false
+}
+
 // flagBranch: the single live use of a flag load is a two-way branch on the flag or on its negation; returns the
 // branch and the successors taken when the flag is true / false.
 func flagBranch(u ssa.Value) (*ssa.If, *ssa.BasicBlock, *ssa.BasicBlock, bool) {
@@ -478,6 +497,18 @@ func flagBranch(u ssa.Value) (*ssa.If, *ssa.BasicBlock, *ssa.BasicBlock, bool) {
 				return iff, f, t, true
 			}
 		}
+	case *ssa.Phi:
+		// the last operand of a short-circuit condition computed as a value (`case a || (b && flag):`): the other
+		// operands are the constants the short circuit yields; the phi is then branched on
+		for _, e := range x.Edges {
+			if e == u {
+				continue
+			}
+			if _, isC := constBool(e); !isC {
+				return nil, nil, nil, false
+			}
+		}
+		return flagBranch(x)
 	}
 	return nil, nil, nil, false
 }
@@ -698,10 +729,10 @@ func ruleFlagUses(w *World, r *Report) {
 		fn := u.Parent()
 		key := w.FnKey(fn) + ": HardWraps"
 		pos := w.InstrPos(u)
-		refs := liveRefs(u)
-		iff, ok := (ssa.Instruction)(nil), false
-		if len(refs) == 1 {
-			iff, ok = refs[0].(*ssa.If)
+		var iff ssa.Instruction
+		fbIf, _, _, ok := flagBranch(u)
+		if ok {
+			iff = fbIf
 		}
 		if !ok {
 			r.Unknown(key, pos, "the flag is not used solely as a branch condition")
@@ -746,7 +777,7 @@ func ruleFlagUses(w *World, r *Report) {
 				r.Bad(key, pos, "HardWraps is consulted only under the extra condition "+bad+": soft line breaks failing it get no <br>")
 			case !soft:
 				r.Bad(key, pos, "HardWraps is not consulted on the SoftLineBreak()==true path")
-			case hardBlock == nil || iff.Block().Succs[0] != hardBlock:
+			case hardBlock == nil || (iff.Block().Succs[0] != hardBlock && !phiTrueFrom(iff, hardBlock)):
 				r.Bad(key, pos, "the HardWraps==true arm is not the hard-line-break arm")
 			default:
 				r.OK(key, pos, "consulted for every soft line break; true arm is the <br> arm")
